@@ -101,12 +101,26 @@ pub fn pool_string(pool: &'static [&'static str]) -> BoxedStrategy<String> {
     .boxed()
 }
 
+/// A family of up to `n` pairwise distinct strings (for tables with many entries).
+pub fn numbered(prefix: &'static str, suffix: &'static str, n: u32) -> BoxedStrategy<String> {
+    (0..n).prop_map(move |k| format!("{prefix}{k}{suffix}")).boxed()
+}
+
+/// Values at and around the powers of two (2^k - 1, 2^k, 2^k + 1 for k = 0..=32, clamped):
+/// where encodings change length, narrow integer types overflow and packed keys collide.
+pub fn near_pow2() -> BoxedStrategy<u32> {
+    (0u32..=32, -1i64..=1)
+        .prop_map(|(k, d)| ((1i64 << k) + d).clamp(0, i64::from(u32::MAX)) as u32)
+        .boxed()
+}
+
 pub fn small_or_edge() -> BoxedStrategy<u32> {
     prop_oneof![
         5 => 0u32..8,
         3 => 0u32..400,
         1 => 0u32..100_000,
         2 => select(EDGE_U32),
+        2 => near_pow2(),
     ]
     .boxed()
 }
@@ -198,7 +212,7 @@ fn dst_line(big: bool) -> BoxedStrategy<u32> {
 
 fn dst_col(edge: bool) -> BoxedStrategy<u32> {
     if edge {
-        prop_oneof![5 => 0u32..6, 3 => 0u32..300, 1 => select(EDGE_U32)].boxed()
+        prop_oneof![5 => 0u32..6, 3 => 0u32..300, 1 => select(EDGE_U32), 1 => near_pow2()].boxed()
     } else {
         prop_oneof![5 => 0u32..6, 3 => 0u32..300].boxed()
     }
@@ -1210,5 +1224,37 @@ pub fn index_strategy(p: MMParams, depth: u32) -> BoxedStrategy<MIndex> {
                 style,
             }
         })
+        .boxed()
+}
+
+/// `levels` index maps nested inside one another around `inner` (each level one section at a
+/// small offset). serde_json's recursion limit (128) allows about 40 levels of sections.
+pub fn nest(inner: MAny, levels: usize, offs: &[(u32, u32)], via_api: bool) -> MIndex {
+    let mut cur = inner;
+    for k in 0..levels.max(1) {
+        let off = offs.get(k % offs.len().max(1)).copied().unwrap_or((0, 0));
+        let ix = MIndex {
+            file: if k % 7 == 3 { Some(format!("level{k}.js")) } else { None },
+            sections: vec![MSection { off, url: None, map: Some(cur) }],
+            via_api,
+            order: vec![0],
+            style: JsonStyle::default(),
+        };
+        cur = MAny::Index(ix);
+    }
+    match cur {
+        MAny::Index(i) => i,
+        _ => unreachable!(),
+    }
+}
+
+pub fn deep_index_strategy(p: MMParams, max_levels: usize) -> BoxedStrategy<MIndex> {
+    (
+        mm_strategy(p),
+        prop_oneof![2 => 1usize..8, 3 => 8usize..=max_levels],
+        vec((0u32..3, 0u32..9), 1..4),
+        any::<bool>(),
+    )
+        .prop_map(|(m, levels, offs, via_api)| nest(MAny::Regular(m), levels, &offs, via_api))
         .boxed()
 }
